@@ -144,11 +144,15 @@ Section CorruptionForgets.
       { exfalso. injection E as E0 _ _. discriminate E0. }
       destruct fin.
       + destruct (negb (in_range t target)); [discriminate E|].
-        match type of E with context [if ?c then RErr sk_E_corruption_detected _ (forget_position ?s) else _] => destruct c end.
+        (* checksum mismatch *)
+        match type of E with (if ?c then _ else _) = _ => destruct c end.
         { injection E as _ <-. reflexivity. }
-        match type of E with context [if ?c then match offset_to_frame _ _ with _ => _ end else _] => destruct c end.
+        (* frame shorter than its entry (fix b63eccc) *)
+        match type of E with (if ?c then _ else _) = _ => destruct c end.
+        { injection E as _ <-. reflexivity. }
+        match type of E with (if ?c then _ else _) = _ => destruct c end.
         * match type of E with context [offset_to_frame t ?p] => destruct (offset_to_frame t p) as [tg|c|s] eqn:Eo end.
-          -- match type of E with context [if ?c then RErr sk_E_corruption_detected _ _ else _] => destruct c end.
+          -- match type of E with (if ?c then _ else _) = _ => destruct c end.
              { injection E as _ <-. reflexivity. }
              match type of E with context [prelude t offset ?a ?b] => destruct (prelude t offset a b) as [st3|c|s] eqn:Ep end.
              ++ eapply IH; exact E.
@@ -156,7 +160,7 @@ Section CorruptionForgets.
              ++ discriminate E.
           -- elim (offset_to_frame_no_err _ _ _ Eo).
           -- discriminate E.
-        * match type of E with context [if ?c then ROk _ _ _ else _] => destruct c; discriminate E end.
+        * match type of E with (if ?c then _ else _) = _ => destruct c; discriminate E end.
       + eapply IH; exact E.
   Qed.
 
@@ -206,3 +210,126 @@ Proof.
   split; [eexists; vm_compute; reflexivity|].
   split; eexists; eexists; vm_compute; reflexivity.
 Qed.
+
+(* ---- fix b63eccc: witness for the loop before it (rloop_keep has neither this test nor a2a0322; no error return is involved in
+   this history, so it behaves like the code at a2a0322 here).  Same table: entry 0 announces 24 bytes, the frame holds 16.
+   Call 1 reads [0, 16) - exactly the bytes the frame really holds: success, position (frame 0, offset 16) kept although the
+   decoder has finished the frame.  Call 2 reads [16, 20): the first four bytes of frame 1, as success.  The current model
+   refuses call 1 (the frame is complete before the end its entry gives) and is positioned nowhere afterwards. *)
+Definition st_after_ok_keep : rstate :=
+  match seekable_decompress_keep st_H st_content 64 16 st_t true rinit (repeat 165 16) 16 0 [(16, true)] with
+  | ROk _ _ st => st | _ => rinit end.
+
+Lemma short_frame_unnoticed_before_fix :
+  (exists st, seekable_decompress_keep st_H st_content 64 16 st_t true rinit (repeat 165 16) 16 0 [(16, true)]
+              = ROk 16 [0;1;2;3;4;5;6;7;8;9;10;11;12;13;14;15] st /\ r_cur st = 0 /\ r_doff st = 16 /\ d_fin st = true) /\
+  (exists st', seekable_decompress_keep st_H st_content 64 16 st_t true st_after_ok_keep [165;165;165;165] 4 16 [(4, false)]
+               = ROk 4 [100; 101; 102; 103] st') /\
+  (exists d st', seekable_decompress st_H st_content 64 16 st_t true rinit (repeat 165 16) 16 0 [(16, true)]
+               = RErr sk_E_corruption_detected d st' /\ r_cur st' = 4294967295).
+Proof.
+  split; [eexists; vm_compute; repeat split; reflexivity|].
+  split; [eexists; vm_compute; reflexivity|].
+  eexists; eexists; vm_compute; split; reflexivity.
+Qed.
+
+(* ------------------------------------------------------------------ the decoder is never left finished inside a claimed frame *)
+(* ANY contents (frames shorter / longer than their entries, wrong checksums ...): a state is [Sound] when the reader is positioned
+   nowhere, or the decoder has not finished the frame it claims to be in, or it has and decompressedOffset is at (or beyond) the
+   end the table gives for that frame - so that no later call can take the continue path with a decoder that sits at the start of
+   the NEXT frame of the file (findings a2a0322 and b63eccc were exactly such states). *)
+Section SoundPosition.
+  Variable H : list N -> N.
+  Variable content : N -> list N.
+  Variables BUFF NOPROG : N.
+  Variable t : seek_table.
+  Hypothesis W : wf_table t.
+
+  Definition Sound (st : rstate) : Prop :=
+    r_cur st = 4294967295 \/ (d_fin st = true -> e_d (ent t (w32 (r_cur st + 1))) <= r_doff st).
+
+  Definition result_sound (r : rres) : Prop :=
+    match r with ROk _ _ s => Sound s | RFuel _ s => Sound s | _ => True end.
+
+  Lemma Sound_unfinished st : d_fin st = false -> Sound st.
+  Proof. intros Hf. right. rewrite Hf. discriminate. Qed.
+
+  Lemma rloop_sound offset len : forall orc st target np dst, r_cur st = target -> d_fin st = false ->
+    result_sound (rloop H content BUFF NOPROG t true offset len orc st target np dst).
+  Proof.
+    induction orc as [|o orc IH]; intros st target np dst Hcur Hfin; cbn [rloop].
+    - destruct (loop_cond t offset len st target) as [[|]|c|s]; cbn [result_sound]; try exact I.
+      + now apply Sound_unfinished.
+      + destruct (r_doff st =? w64 (offset + len)); cbn [result_sound]; [now apply Sound_unfinished|exact I].
+    - destruct (loop_cond t offset len st target) as [[|]|c|s]; cbn [result_sound]; try exact I.
+      2:{ destruct (r_doff st =? w64 (offset + len)); cbn [result_sound]; [now apply Sound_unfinished|exact I]. }
+      destruct (negb (in_range t (w32 (target + 1)))); [exact I|].
+      match goal with |- context [if ?c then RTrap 52 else _] => destruct c; [exact I|] end.
+      unfold dcall. cbn [d_fin d_frame d_prod r_cur r_doff r_acc r_trace]. rewrite Hfin.
+      cbv beta iota zeta. cbn [fst snd d_fin d_frame d_prod r_cur r_doff r_acc r_trace].
+      match goal with |- context [if ?c then RErr sk_E_seekableIO _ _ else _] => destruct c; [exact I|] end.
+      match goal with |- context [if ?f then (if negb (in_range t target) then _ else _) else _] => destruct f eqn:Ef end.
+      + destruct (negb (in_range t target)); [exact I|].
+        match goal with |- result_sound (if ?c then _ else _) => destruct c; [exact I|] end.
+        cbn [andb].
+        match goal with |- result_sound (if ?a <? ?b then _ else _) => destruct (N.ltb_spec a b) as [Hshort|Hge]; [exact I|] end.
+        match goal with |- result_sound (if ?c then _ else _) => destruct c end.
+        * match goal with |- context [offset_to_frame t ?p] => destruct (offset_to_frame t p) as [tg|c|s]; try exact I end.
+          cbn [r_cur]. rewrite Hcur.
+          destruct (N.eqb_spec (w32 tg) target) as [Esame|Hdiff]; cbn [andb]; [exact I|].
+          unfold prelude. cbn [r_cur r_doff].
+          replace (w32 tg =? target) with false by (symmetry; apply N.eqb_neq; assumption). cbn [negb orb].
+          unfold restart. destruct (negb (in_range t (w32 tg))); [exact I|].
+          apply IH; reflexivity.
+        * match goal with |- result_sound (if ?c then _ else _) => destruct c; [|exact I] end.
+          cbn [result_sound]. right. intros _. cbn [r_cur r_doff]. rewrite Hcur. exact Hge.
+      + apply IH; [cbn [r_cur]; exact Hcur|reflexivity].
+  Qed.
+
+  (* one ZSTD_seekable_decompress call keeps it (when it returns a position at all: success or "oracle exhausted") *)
+  Lemma call_keeps_sound st dst len offset orc : Sound st ->
+    result_sound (seekable_decompress H content BUFF NOPROG t true st dst len offset orc).
+  Proof.
+    intros HS. unfold seekable_decompress.
+    destruct (negb (in_range t (t_len t))); [exact I|].
+    destruct (N.leb_spec (e_d (ent t (t_len t))) offset) as [Hbeyond|Hin]; [exact HS|].
+    destruct (offset_to_frame_spec t offset W) as [_ Hspec].
+    destruct (Hspec Hin) as (i & -> & Hi & Hlo & Hhi).
+    pose proof (wf_small t W) as Hsm.
+    rewrite (w32_small i) by lia.
+    unfold prelude.
+    destruct (negb (i =? r_cur st) || (offset <? r_doff st)) eqn:Ep.
+    - unfold restart. destruct (negb (in_range t i)); [exact I|]. apply rloop_sound; reflexivity.
+    - apply orb_false_iff in Ep. destruct Ep as [E1 E2].
+      apply negb_false_iff in E1. apply N.eqb_eq in E1. apply N.ltb_ge in E2.
+      apply rloop_sound; [symmetry; exact E1|].
+      destruct (d_fin st) eqn:Ef; [exfalso|reflexivity].
+      destruct HS as [Hn|HS]; [lia|]. specialize (HS Ef).
+      rewrite <- E1 in HS. rewrite (w32_small (i + 1)) in HS by lia. lia.
+  Qed.
+
+  (* consequence: from a Sound state a call never takes the continue path with a finished decoder, i.e. never decodes the next
+     frame of the file as the rest of the claimed one *)
+  Lemma continue_path_has_live_decoder st offset target :
+    Sound st -> offset < e_d (ent t (t_len t)) -> offset_to_frame t offset = Ok target ->
+    prelude t offset st (w32 target) = Ok st -> d_fin st = false.
+  Proof.
+    intros HS Hin Eo. destruct (offset_to_frame_spec t offset W) as [_ Hspec].
+    destruct (Hspec Hin) as (i & Ei & Hi & Hlo & Hhi). rewrite Ei in Eo. injection Eo as <-.
+    pose proof (wf_small t W) as Hsm. rewrite (w32_small i) by lia.
+    unfold prelude. destruct (negb (i =? r_cur st) || (offset <? r_doff st)) eqn:Ep.
+    - unfold restart. destruct (negb (in_range t i)); [discriminate|].
+      intros E. injection E as E. destruct (d_fin st) eqn:Ef; [|reflexivity].
+      apply (f_equal d_fin) in E. cbn [d_fin] in E. congruence.
+    - intros _. apply orb_false_iff in Ep. destruct Ep as [E1 E2].
+      apply negb_false_iff in E1. apply N.eqb_eq in E1. apply N.ltb_ge in E2.
+      destruct (d_fin st) eqn:Ef; [exfalso|reflexivity].
+      destruct HS as [Hn|HS]; [lia|]. specialize (HS Ef).
+      rewrite <- E1 in HS. rewrite (w32_small (i + 1)) in HS by lia. lia.
+  Qed.
+
+  Lemma Sound_rinit : Sound rinit.
+  Proof. left. reflexivity. Qed.
+  Lemma Sound_nowhere doff f p fin acc tr : Sound (nowhere doff f p fin acc tr).
+  Proof. left. reflexivity. Qed.
+End SoundPosition.
